@@ -69,20 +69,42 @@ pub fn fp_rules() -> Vec<FpRule> {
         rbc("scale-out-xy", "(sum $x (sum $y (mul ?a ?b)))", "(mul ?a (sum $x (sum $y ?b)))", &[("x", "a"), ("y", "a")]),
         FpRule { name: "let-add-or", lhs: "(let $x (add ?a ?b) ?e)", rhs: "(add (let $x ?a ?e) (let $x ?b ?e))", not_free: &[], or_free: &[("x", "a"), ("x", "b")], binder_rule: true, has_subst: false },
         FpRule { name: "sum-const-notnot", lhs: "(sum $x (add ?c ?c))", rhs: "(mul 4 ?c)", not_free: &[("x", "c")], or_free: &[("x", "c"), ("x", "c")], binder_rule: true, has_subst: false },
+        // a binder that only the right side has, over a pattern variable: valid because the bound name is new, i.e. the variable's
+        // term cannot mention it (capture avoidance rests on the fresh names the matcher invents for uncovered slots)
+        rb("sum-intro", "(add ?c ?c)", "(sum $z ?c)"),
+        rb("let-abstract", "(mul ?a ?b)", "(let $z (mul (var $z) ?b) ?a)"),
     ]
 }
 
 type BoxCond<N> = Box<dyn Fn(&Subst, &EGraph<Fp, N>) -> bool>;
 
-/// conditions are assembled from the library's own combinators (slot_free_in, and, or, not), which are part of what is tested
+/// the rule with its slots spelled with the names of parameter slots of classes existing in `eg` (see mixed::build_rule_classnamed)
+pub fn build_fp_rule_classnamed<N: Analysis<Fp> + 'static>(rt: &FpRule, eg: &EGraph<Fp, N>, k: usize) -> Rewrite<Fp, N> {
+    let mut names = crate::mixed::slot_names_in(rt.lhs);
+    for n in crate::mixed::slot_names_in(rt.rhs) {
+        if !names.contains(&n) {
+            names.push(n);
+        }
+    }
+    let map = crate::mixed::class_slot_renaming(&names, eg, k);
+    build_fp_rule_with(rt, &|s: &str| crate::mixed::rename_slots_in(s, &map), &|s: &str| map.iter().find(|(a, _)| a == s).map(|(_, b)| b.clone()).unwrap_or(s.to_string()))
+}
+
 pub fn build_fp_rule<N: Analysis<Fp> + 'static>(rt: &FpRule) -> Rewrite<Fp, N> {
+    build_fp_rule_with(rt, &|s: &str| s.to_string(), &|s: &str| s.to_string())
+}
+
+/// conditions are assembled from the library's own combinators (slot_free_in, and, or, not), which are part of what is tested
+fn build_fp_rule_with<N: Analysis<Fp> + 'static>(rt: &FpRule, ren_txt: &dyn Fn(&str) -> String, ren_slot: &dyn Fn(&str) -> String) -> Rewrite<Fp, N> {
+    let (lhs, rhs) = (ren_txt(rt.lhs), ren_txt(rt.rhs));
+    let (lhs, rhs) = (lhs.as_str(), rhs.as_str());
     if rt.not_free.is_empty() && rt.or_free.is_empty() {
-        return Rewrite::new(rt.name, rt.lhs, rt.rhs);
+        return Rewrite::new(rt.name, lhs, rhs);
     }
     let mut cond: BoxCond<N> = Box::new(|_, _| true);
     let mut first = true;
     for (s, v) in rt.not_free {
-        let c = slot_free_in::<Fp, N>(s, v);
+        let c = slot_free_in::<Fp, N>(&ren_slot(s), v);
         cond = if first { Box::new(c) } else { Box::new(and::<Fp, N>(cond, c)) };
         first = false;
     }
@@ -91,14 +113,14 @@ pub fn build_fp_rule<N: Analysis<Fp> + 'static>(rt: &FpRule) -> Rewrite<Fp, N> {
         let (s2, v2) = rt.or_free[1];
         if (s1, v1) == (s2, v2) {
             // not(not(c)) in conjunction
-            let nn = not::<Fp, N>(not::<Fp, N>(slot_free_in::<Fp, N>(s1, v1)));
+            let nn = not::<Fp, N>(not::<Fp, N>(slot_free_in::<Fp, N>(&ren_slot(s1), v1)));
             cond = Box::new(and::<Fp, N>(cond, nn));
         } else {
-            let o = or::<Fp, N>(slot_free_in::<Fp, N>(s1, v1), slot_free_in::<Fp, N>(s2, v2));
+            let o = or::<Fp, N>(slot_free_in::<Fp, N>(&ren_slot(s1), v1), slot_free_in::<Fp, N>(&ren_slot(s2), v2));
             cond = if first { Box::new(o) } else { Box::new(and::<Fp, N>(cond, o)) };
         }
     }
-    Rewrite::new_if(rt.name, rt.lhs, rt.rhs, cond)
+    Rewrite::new_if(rt.name, lhs, rhs, cond)
 }
 
 /// Model-level validation of one rule by random instantiation; Err = the rule (or the harness's
